@@ -348,7 +348,7 @@ class IpmReader(VbsReader):
             raise MciIpmDataError(
                 'Error while processing ISO8583 record',
                 binary_context_data=self.last_record,
-                record_number=self.record_number,
+                record_number=self.record_number - 1,  # counter was already advanced past this record
                 original_exception=ex
             )
         return output
